@@ -467,6 +467,31 @@ func TestVerifC16(t *testing.T) {
 				}
 			}
 		}
+		// identifiers that were NEVER stored but whose key text is a prefix of a stored key (sequence s/10 of a stored sequence s): a lookup
+		// must answer not-found, never the bytes of the sibling
+		{
+			written := map[vaa.VAAID]bool{}
+			for _, e := range expects {
+				written[e.id] = true
+			}
+			asked := 0
+			for k := 0; k < nprev && asked < 48; k++ {
+				e := expects[(k*104729)%nprev]
+				absent := e.id
+				absent.Sequence = e.id.Sequence / 10
+				if written[absent] || absent.Sequence == e.id.Sequence {
+					continue
+				}
+				asked++
+				if b, err := d.GetSignedVAABytes(absent); err == nil {
+					row.Mon = append(row.Mon, fmt.Sprintf("lookup of %s, an identifier that was never stored, returns %d bytes (the stored sibling %s has a key that starts with its key) instead of not-found", absent.ToString(), len(b), e.id.ToString()))
+					break
+				} else if err != ErrVAANotFound {
+					row.Mon = append(row.Mon, fmt.Sprintf("lookup of the never-stored identifier %s failed with %v instead of not-found", absent.ToString(), err))
+					break
+				}
+			}
+		}
 		// the cycles killed since the last verification, oldest first
 		for pi, pc := range pending {
 			row := pc.row
